@@ -456,23 +456,11 @@ def cop(op, oobs):
     raise ValueError(k)
 
 
-def apply_after_division_raise(case, obs):
-    """applyAlongDimensions raised AttributeError after an earlier file DIVISION in the sequence: value-dependent defect
-    C01-apply-after-division (a 0/0 cell of a netCDF4-backed operand leaves a mask array that is itself a PseudoNetCDFVariable
-    carrying numpy's own `flat` as a listed attribute); outside the structure model, decided by py_check (region 2)"""
-    n_ok = len(obs['states']) - 1
-    if obs['raised'] != 'AttributeError' or n_ok >= len(case['ops']) or case['ops'][n_ok]['op'] != 'apply':
-        return False
-    return any(o['op'] == 'binop' and o.get('sym') == '/' for o in case['ops'][:n_ok])
-
-
 def coq_term(case, obs):
     if 'raises' in obs or case['init']['how'] == 'ioapi':
         return None
     n_ok = len(obs['states']) - 1
     real_raise = obs['raised'] is not None and not obs['raised'].startswith('operand:')
-    if real_raise and apply_after_division_raise(case, obs):
-        real_raise = False          # the raising step is not given to the model (py_check decides it, region 2)
     ops = case['ops'][:n_ok + (1 if real_raise else 0)]
     terms = [cop(op, obs['others'][i]) for i, op in enumerate(ops)]
     outs = ['(Ok %s)' % cfile(s) for s in obs['states'][1:]] + (['Raise'] if real_raise else [])
@@ -550,8 +538,6 @@ def py_check(case, obs):
         coord_ok = all(vd == [k] for k, vd, sh, m, at, cm in cur['vars'] if k in dimids)
         if all(d in have for d, a in op['funs']) and all(n > 0 for k, n, u in cur['dims']) and not wf_state(cur) and coord_ok:
             why.append('applyAlongDimensions(%s) raised %s' % (op['funs'], obs['raised']))
-            if apply_after_division_raise(case, obs):
-                region = 2
     return dict(s_ok=not why, why='; '.join(why), region=region)
 
 
